@@ -74,7 +74,7 @@ QBoundary(rs, cs, ids)        ==
 
 (* ---------- the operation alphabet: a record o with field op ---------- *)
 IsMutation(o) == o.op \in {"rename_map", "modify_element", "modify_row", "modify_column", "append", "remove_rows",
-                           "rename_column", "slice", "reset_index", "fillna"}
+                           "rename_column", "slice", "reset_index", "fillna", "touch_source"}
 
 Enabled(o, rs, cs) ==
   CASE o.op = "modify_element" -> HasLabel(rs, o.lab) /\ HasCol(cs, o.col)
@@ -87,6 +87,8 @@ Enabled(o, rs, cs) ==
                                   /\ LET cs2 == MRenameMap(cs, o.map) IN \A i, j \in 1..Len(cs2) : i # j => cs2[i] # cs2[j]
     [] o.op = "slice"          -> 0 <= o.a /\ o.a <= o.b /\ o.b <= Len(rs)
     [] o.op \in {"reset_index", "fillna", "iter", "len", "access"} -> TRUE
+    \* touch_source: the table that was appended last is modified in place afterwards; this table is a different table and keeps its contents
+    [] o.op = "touch_source"   -> TRUE
     [] o.op \in {"column", "index", "index_first", "index_dm", "bundle"} -> HasCol(cs, o.col)
     [] o.op = "read_block"     -> BlockDefined(rs, cs, o.v)
     [] o.op \in {"read_block_with", "boundary"} -> HasCol(cs, "stmt_id")
